@@ -10,6 +10,8 @@ Consumers: get_u8/u16/u32/u64/i*, advance(n), copy_to_bytes(n), copy_to_slice(s)
 `let Y = X.copy_to_bytes(n)` creates a cursor Y with bound n.  Passing a cursor to another function resets its bound to 0.
 Joins take the pointwise minimum (equal polynomials, or the minimum of constants, else 0).  No solver.
 """
+import re
+
 from . import hirq as H
 from .acc import Poly, place_text
 
@@ -21,6 +23,21 @@ BUF_TRAIT = "bytes::buf::buf_impl::Buf::"
 class Site:
     def __init__(self, fn, op, cursor, need, bound, ok, line):
         self.fn, self.op, self.cursor, self.need, self.bound, self.ok, self.line = fn, op, cursor, need, bound, ok, line
+
+
+FACTS = None  # set by the caller (facts of the tree under analysis) so that named integer constants evaluate to their values
+
+
+def const_value(path):
+    """value of a named integer constant of the analysed tree (`PDV_HEADER_SIZE` -> 6), None when unknown"""
+    if FACTS is None:
+        return None
+    try:
+        c = FACTS.const(path)
+    except Exception:
+        return None
+    m = re.fullmatch(r"(-?\d+)_?[iu](8|16|32|64|128|size)", str((c or {}).get("val", "")))
+    return int(m.group(1)) if m else None
 
 
 def poly_of(n, env):
@@ -35,7 +52,8 @@ def poly_of(n, env):
     if k == "path":
         if n[3] == "local":
             return env.get(n[2], Poly.atom(n[2]))
-        return Poly.atom(n[2].split("::")[-1])
+        v = const_value(n[2])
+        return Poly.const(v) if v is not None else Poly.atom(n[2].split("::")[-1])
     if k == "bin":
         a, b = poly_of(n[3], env), poly_of(n[4], env)
         if n[2] == "Add":
@@ -76,6 +94,27 @@ class Budget:
         self.fn = fn_name
         self.sites = []
         self.cursors = set()
+        self.guards = []  # every constant-size availability guard: {cursor, need, line, slack}
+
+    # ---- tightness: a guard that demands a constant number of bytes must not demand more than is read before the next guard on
+    # the same cursor / the end of the loop iteration (an over-strict guard rejects the shortest valid encoding)
+    def new_guard(self, st, cur, e, line):
+        self.leftover(st, cur, f"the next guard (line {line})", e)
+        if e.is_const():
+            self.guards.append({"cursor": cur, "need": e.const_value(), "line": line, "slack": None})
+            st.setdefault("g", {})[cur] = len(self.guards) - 1
+        else:
+            st.setdefault("g", {}).pop(cur, None)
+
+    def leftover(self, st, cur, where, new=None):
+        gi = st.get("g", {}).get(cur)
+        if gi is None:
+            return
+        left = st["b"].get(cur, Poly())
+        if left.is_const() and (left.const_value() or 0) > 0 and not (new is not None and nonneg(new - left)):
+            g = self.guards[gi]
+            if g["slack"] is None:
+                g["slack"] = f"{left.const_value()} byte(s) demanded at line {g['line']} are still unread at {where}"
 
     # ---- helpers
     def is_buf_call(self, n, name=None):
@@ -156,7 +195,7 @@ class Budget:
         return False
 
     def copy_state(self, st):
-        return {"b": dict(st["b"]), "env": dict(st["env"]), "bools": dict(st["bools"])}
+        return {"b": dict(st["b"]), "env": dict(st["env"]), "bools": dict(st["bools"]), "g": dict(st.get("g", {}))}
 
     def join(self, states):
         states = [s for s in states if s is not None]
@@ -168,6 +207,7 @@ class Budget:
             out["b"] = {k: pmin(out["b"].get(k, Poly()), s["b"].get(k, Poly())) for k in keys}
             out["env"] = {k: v for k, v in out["env"].items() if s["env"].get(k) == v}
             out["bools"] = {k: v for k, v in out["bools"].items() if s["bools"].get(k) == v}
+            out["g"] = {k: v for k, v in out.get("g", {}).items() if s.get("g", {}).get(k) == v}
         return out
 
     # ---- evaluation: returns the state after the expression, or None when it diverges
@@ -231,10 +271,9 @@ class Budget:
             s_then, s_else = self.copy_state(st), self.copy_state(st)
             if rc:
                 cur, e, sense = rc
-                if sense == "lt":
-                    s_else["b"][cur] = self.bmax(s_else["b"].get(cur, Poly()), e)
-                else:
-                    s_then["b"][cur] = self.bmax(s_then["b"].get(cur, Poly()), e)
+                tgt = s_else if sense == "lt" else s_then
+                self.new_guard(tgt, cur, e, n[1])
+                tgt["b"][cur] = self.bmax(tgt["b"].get(cur, Poly()), e)
             hr = H.peel(cond)
             if H.kind(hr) == "mcall" and hr[3] == "has_remaining":
                 cur = place_text(hr[4])
@@ -268,7 +307,11 @@ class Budget:
             for c in touched:
                 s0["b"][c] = Poly()
             s0["bools"] = {}
-            self.ev(body, s0)
+            s0["g"] = {}
+            s_end = self.ev(body, s0)
+            if s_end is not None:
+                for c in touched:
+                    self.leftover(s_end, c, "end of the loop iteration")
             out = self.copy_state(st)
             for c in touched:
                 out["b"][c] = Poly()
@@ -344,8 +387,12 @@ class Budget:
 
 
 def analyse(hirfn, short):
+    global FACTS
+    if FACTS is None:
+        from . import facts
+        FACTS = facts.load("W")
     b = Budget(short)
-    st = {"b": {}, "env": {}, "bools": {}}
+    st = {"b": {}, "env": {}, "bools": {}, "g": {}}
     body = hirfn["body"]
     # `while cond { body }` is desugared to loop { if cond { body } else { break } }: handled by ev('loop') + ev('if')
     b.ev(body, st)
